@@ -352,6 +352,13 @@ func (s *Suite) Trace(out *Outcome, cases []*Case) ([]string, []int, error) {
 			a.RuleViol[i] = strings.ToLower(a.RuleViol[i])
 		}
 		add(c.ID, map[string]any{"event": "Req", "case": c.ID, "req": a})
+		if sh.Published != nil {
+			ps := sh.Published.Params
+			if ps == nil {
+				ps = []PubParam{}
+			}
+			add(c.ID, map[string]any{"event": "Published", "found": sh.Published.Found, "params": ps})
+		}
 		evs := out.Events[c.ID]
 		sort.SliceStable(evs, func(i, j int) bool { return evs[i]["seq"].(float64) < evs[j]["seq"].(float64) })
 		if len(evs) == 0 {
